@@ -245,3 +245,180 @@ package statsd
 //@   ensures  forall s gostatsd.Source :: s != info.IP ==> (s in ch.awaitingMetrics) == old(s in ch.awaitingMetrics) && (s in ch.awaitingEvents) == old(s in ch.awaitingEvents)
 //@   ensures  ch.statsEventItemsQueued == wrapu64(old(ch.statsEventItemsQueued) - old(len(ch.awaitingEvents[info.IP])))
 //@   modifies ch.statsMetricHostsQueued, ch.statsEventHostsQueued, ch.statsEventItemsQueued, ch.awaitingMetrics[*], ch.awaitingEvents[*]
+
+// ---- handler_tags.go (C10) -------------------------------------------------------------------------
+// (quantifiers range over absolute positions of a slice's backing array: at(t, k))
+//@ pred inTags(x string, t gostatsd.Tags) := exists k int :: off(t) <= k && k < off(t) + len(t) && at(t, k) == x
+//@ pred nodupTags(t gostatsd.Tags) := forall i int, j int :: off(t) <= i && i < j && j < off(t) + len(t) ==> at(t, i) != at(t, j)
+
+// uniqueTagsWithSeen returns (t1 ∪ t2) \ seen without duplicates (t2 itself must be duplicate free,
+// which NewTagHandler establishes for the static tags).
+//@ func uniqueTagsWithSeen
+//@   requires seen != nil && nodupTags(t2) && (base(t1) != base(t2) || len(t2) == 0)
+//@   ensures  base(result) == old(base(t1)) || fresh(base(result))
+//@   ensures  [nodup] nodupTags(result)
+//@   ensures  [notseen] forall k int :: off(result) <= k && k < off(result) + len(result) ==> !inOld(at(result, k), seen)
+//@   ensures  [sound] forall k int :: off(result) <= k && k < off(result) + len(result) ==> (exists m int :: old(off(t1)) <= m && m < old(off(t1) + len(t1)) && old(at(t1, m)) == at(result, k)) || inTags(at(result, k), t2)
+//@   ensures  [complete] forall k int :: old(off(t1)) <= k && k < old(off(t1) + len(t1)) && !old(at(t1, k) in seen) ==> inTags(old(at(t1, k)), result)
+//@   ensures  [complete] forall j int :: off(t2) <= j && j < off(t2) + len(t2) && !inOld(at(t2, j), seen) ==> inTags(at(t2, j), result)
+//@   loop 1 invariant base(t1) == old(base(t1)) && off(t1) == old(off(t1)) && len(t1) == last && 0 <= idx && idx <= last && last <= old(len(t1)) && cap(t1) == old(cap(t1))
+//@   loop 1 invariant forall k int :: off(t1) <= k && k < off(t1) + idx ==> (at(t1, k) in seen) && !inOld(at(t1, k), seen)
+//@   loop 1 invariant forall i int, j int :: off(t1) <= i && i < j && j < off(t1) + idx ==> at(t1, i) != at(t1, j)
+//@   loop 1 invariant forall x string :: old(x in seen) ==> (x in seen)
+//@   loop 1 invariant forall x string :: (x in seen) && !old(x in seen) ==> (exists k int :: off(t1) <= k && k < off(t1) + idx && at(t1, k) == x)
+//@   loop 1 invariant forall k int :: off(t1) <= k && k < off(t1) + last ==> (exists m int :: old(off(t1)) <= m && m < old(off(t1) + len(t1)) && old(at(t1, m)) == at(t1, k))
+//@   loop 1 invariant forall k int :: old(off(t1)) <= k && k < old(off(t1) + len(t1)) && !old(at(t1, k) in seen) ==> inTags(old(at(t1, k)), t1)
+//@   loop 2 invariant (base(t1) != base(t2) || len(t2) == 0) && len(t1) >= pre(len(t1)) && (base(t1) == old(base(t1)) || fresh(base(t1)))
+//@   loop 2 invariant forall j int :: off(t2) <= j && j < off(t2) + len(t2) ==> at(t2, j) == pre(at(t2, j))
+//@   loop 2 invariant off(t1) == pre(off(t1)) && (forall m int :: pre(off(t1)) <= m && m < pre(off(t1) + len(t1)) ==> at(t1, m) == pre(at(t1, m)))
+//@   loop 2 invariant nodupTags(t1)
+//@   loop 2 invariant forall k int :: off(t1) <= k && k < off(t1) + len(t1) ==> (exists m int :: pre(off(t1)) <= m && m < pre(off(t1) + len(t1)) && pre(at(t1, m)) == at(t1, k)) || (exists j int :: off(t2) <= j && j <= off(t2) + rangeindex && at(t2, j) == at(t1, k) && !(at(t2, j) in seen))
+//@   loop 2 invariant forall j int :: off(t2) <= j && j <= off(t2) + rangeindex ==> (at(t2, j) in seen) || inTags(at(t2, j), t1)
+//@   modifies seen[*], t1[*]
+
+//@ func uniqueTags
+//@   requires nodupTags(t2) && (base(t1) != base(t2) || len(t2) == 0)
+//@   ensures  base(result) == old(base(t1)) || fresh(base(result))
+//@   ensures  [nodup] nodupTags(result)
+//@   ensures  [sound] forall k int :: off(result) <= k && k < off(result) + len(result) ==> (exists m int :: old(off(t1)) <= m && m < old(off(t1) + len(t1)) && old(at(t1, m)) == at(result, k)) || inTags(at(result, k), t2)
+//@   ensures  [complete] forall k int :: old(off(t1)) <= k && k < old(off(t1) + len(t1)) ==> inTags(old(at(t1, k)), result)
+//@   ensures  [complete] forall j int :: off(t2) <= j && j < off(t2) + len(t2) ==> inTags(at(t2, j), result)
+//@   modifies t1[*]
+
+// A filter applies to a metric when its name matches match-metrics (or that list is empty), matches
+// nothing in exclude-metrics, and some tag matches match-tags (or that list is empty).
+//@ pred satisfied(f Filter, name string, tags gostatsd.Tags) := (len(f.MatchMetrics) == 0 || anyMatch(f.MatchMetrics, name)) && !anyMatch(f.ExcludeMetrics, name) && (len(f.MatchTags) == 0 || anyMatchMulti(f.MatchTags, tags))
+// tag x is removed when it is a tag of the metric and drop-tags of an applying filter matches it
+//@ pred droppedBy(fs []Filter, hi int, name string, tags gostatsd.Tags, x string) := exists k int :: off(fs) <= k && k < hi && satisfied(at(fs, k), name, tags) && anyMatch(at(fs, k).DropTags, x)
+//@ pred hostDropped(fs []Filter, hi int, name string, tags gostatsd.Tags) := exists k int :: off(fs) <= k && k < hi && satisfied(at(fs, k), name, tags) && at(fs, k).DropHost
+//@ pred metricDropped(fs []Filter, hi int, name string, tags gostatsd.Tags) := exists k int :: off(fs) <= k && k < hi && satisfied(at(fs, k), name, tags) && at(fs, k).DropMetric
+
+// uniqueFilterAndAddTags: the documented rules of FILTERING.md for one metric.
+//@ func (*TagHandler).uniqueFilterAndAddTags
+//@   requires th != nil && mHostname != nil && mTags != nil && nodupTags(th.tags) && (base(deref(mTags)) != base(th.tags) || len(th.tags) == 0)
+//@   ensures  base(deref(mTags)) == old(base(deref(mTags))) || fresh(base(deref(mTags)))
+//@   ensures  [drop] result ==> !old(metricDropped(th.filters, off(th.filters) + len(th.filters), mName, deref(mTags)))
+//@   ensures  [drop] !result ==> old(metricDropped(th.filters, off(th.filters) + len(th.filters), mName, deref(mTags)))
+//@   ensures  [host] result && old(hostDropped(th.filters, off(th.filters) + len(th.filters), mName, deref(mTags))) ==> deref(mHostname) == ""
+//@   ensures  [host] result && !old(hostDropped(th.filters, off(th.filters) + len(th.filters), mName, deref(mTags))) ==> deref(mHostname) == old(deref(mHostname))
+//@   ensures  [nodup] result ==> nodupTags(deref(mTags))
+//@   ensures  [kept] result ==> forall m int :: old(off(deref(mTags))) <= m && m < old(off(deref(mTags)) + len(deref(mTags))) && !old(droppedBy(th.filters, off(th.filters) + len(th.filters), mName, deref(mTags), at(deref(mTags), m))) ==> inTags(old(at(deref(mTags), m)), deref(mTags))
+//@   loop 1 invariant dropTags != nil && fresh(dropTags) && deref(mTags) == old(deref(mTags))
+//@   loop 1 invariant forall m int :: off(deref(mTags)) <= m && m < off(deref(mTags)) + len(deref(mTags)) ==> at(deref(mTags), m) == old(at(deref(mTags), m))
+//@   loop 1 invariant !metricDropped(th.filters, off(th.filters) + rangeindex + 1, mName, deref(mTags))
+//@   loop 1 invariant hostDropped(th.filters, off(th.filters) + rangeindex + 1, mName, deref(mTags)) ==> deref(mHostname) == ""
+//@   loop 1 invariant !hostDropped(th.filters, off(th.filters) + rangeindex + 1, mName, deref(mTags)) ==> deref(mHostname) == old(deref(mHostname))
+//@   ensures  [removed] result ==> forall k int, m int :: off(deref(mTags)) <= k && k < off(deref(mTags)) + len(deref(mTags)) && old(off(deref(mTags))) <= m && m < old(off(deref(mTags)) + len(deref(mTags))) && old(at(deref(mTags), m)) == at(deref(mTags), k) ==> !old(droppedBy(th.filters, off(th.filters) + len(th.filters), mName, deref(mTags), at(deref(mTags), m)))
+//@   ensures  [static] result ==> forall j int :: off(th.tags) <= j && j < off(th.tags) + len(th.tags) ==> inTags(at(th.tags, j), deref(mTags)) || (exists m int :: old(off(deref(mTags))) <= m && m < old(off(deref(mTags)) + len(deref(mTags))) && old(at(deref(mTags), m)) == at(th.tags, j) && old(droppedBy(th.filters, off(th.filters) + len(th.filters), mName, deref(mTags), at(deref(mTags), m))))
+//@   ensures  [sound] result ==> forall k int :: off(deref(mTags)) <= k && k < off(deref(mTags)) + len(deref(mTags)) ==> (exists m int :: old(off(deref(mTags))) <= m && m < old(off(deref(mTags)) + len(deref(mTags))) && old(at(deref(mTags), m)) == at(deref(mTags), k)) || inTags(at(deref(mTags), k), th.tags)
+//@   loop 1 invariant forall x string :: (x in dropTags) ==> inTags(x, deref(mTags)) && droppedBy(th.filters, off(th.filters) + rangeindex + 1, mName, deref(mTags), x)
+//@   loop 1 invariant forall m int :: off(deref(mTags)) <= m && m < off(deref(mTags)) + len(deref(mTags)) && droppedBy(th.filters, off(th.filters) + rangeindex + 1, mName, deref(mTags), at(deref(mTags), m)) ==> (at(deref(mTags), m) in dropTags)
+//@   loop 2 invariant dropTags != nil && (forall x string :: pre(x in dropTags) ==> (x in dropTags))
+//@   loop 2 invariant forall x string :: (x in dropTags) ==> pre(x in dropTags) || (inTags(x, deref(mTags)) && (exists d int :: off(filter.DropTags) <= d && d <= off(filter.DropTags) + rangeindex && matchSpec(at(filter.DropTags, d), x)))
+//@   loop 2 invariant forall d int, m int :: off(filter.DropTags) <= d && d <= off(filter.DropTags) + rangeindex && off(deref(mTags)) <= m && m < off(deref(mTags)) + len(deref(mTags)) && matchSpec(at(filter.DropTags, d), at(deref(mTags), m)) ==> (at(deref(mTags), m) in dropTags)
+//@   loop 3 invariant dropTags != nil && (forall x string :: pre(x in dropTags) ==> (x in dropTags))
+//@   loop 3 invariant forall x string :: (x in dropTags) ==> pre(x in dropTags) || (matchSpec(dropFilter, x) && (exists m int :: off(deref(mTags)) <= m && m <= off(deref(mTags)) + rangeindex && at(deref(mTags), m) == x))
+//@   loop 3 invariant forall m int :: off(deref(mTags)) <= m && m <= off(deref(mTags)) + rangeindex && matchSpec(dropFilter, at(deref(mTags), m)) ==> (at(deref(mTags), m) in dropTags)
+//@   modifies deref(mHostname), deref(mTags), deref(mTags)[*]
+
+// TagHandler.DispatchMetricMap: each series is filtered / re-tagged and stored in the new map under the
+// key computed from its *new* tags and source; series that coincide after re-tagging are combined.
+//@ pred tagsApart(tags gostatsd.Tags, static gostatsd.Tags) := base(tags) != base(static) || len(static) == 0
+//@ func (*TagHandler).DispatchMetricMap$1
+//@   iter invariant th != nil && nodupTags(th.tags) && mmNew != nil && wfdCounters(mmNew.Counters) && pfresh(mmNew.Counters) && (forall n string :: n in mmNew.Counters ==> pfresh(mmNew.Counters[n]))
+//@   iter invariant forall n string :: (n in iter) == old(n in iter) && iter[n] == old(iter[n])
+//@   iter invariant forall n string, t string :: n in iter ==> (t in iter[n]) == old(t in iter[n]) && iter[n][t] == old(iter[n][t])
+//@   iter invariant forall n string, t string :: n in iter && t in iter[n] ==> tagsApart(iter[n][t].Tags, th.tags)
+//@   requires th != nil && nodupTags(th.tags) && mmNew != nil && wfdCounters(mmNew.Counters) && tagsApart(cOriginal.Tags, th.tags)
+//@   ensures  wfdCounters(mmNew.Counters) && mmNew.Counters == old(mmNew.Counters)
+//@   ensures  [dropped] old(metricDropped(th.filters, off(th.filters) + len(th.filters), metricName, cOriginal.Tags)) ==> forall n string, t string :: hasC(mmNew, n, t) == old(hasC(mmNew, n, t)) && (hasC(mmNew, n, t) ==> mmNew.Counters[n][t] == old(mmNew.Counters[n][t]))
+//@   ensures  [keyed] !old(metricDropped(th.filters, off(th.filters) + len(th.filters), metricName, cOriginal.Tags)) ==> hasC(mmNew, metricName, tagsKeyOf(final(cOriginal.Source), final(cOriginal.Tags)))
+//@   ensures  [combine] forall k string :: !old(metricDropped(th.filters, off(th.filters) + len(th.filters), metricName, cOriginal.Tags)) && k == tagsKeyOf(final(cOriginal.Source), final(cOriginal.Tags)) && old(hasC(mmNew, metricName, k)) ==> mmNew.Counters[metricName][k].Value == wrap64(old(mmNew.Counters[metricName][k].Value) + cOriginal.Value) && mmNew.Counters[metricName][k].Timestamp == imax(old(mmNew.Counters[metricName][k].Timestamp), cOriginal.Timestamp) && mmNew.Counters[metricName][k].Tags == old(mmNew.Counters[metricName][k].Tags) && mmNew.Counters[metricName][k].Source == old(mmNew.Counters[metricName][k].Source)
+//@   ensures  [combine] forall k string :: !old(metricDropped(th.filters, off(th.filters) + len(th.filters), metricName, cOriginal.Tags)) && k == tagsKeyOf(final(cOriginal.Source), final(cOriginal.Tags)) && !old(hasC(mmNew, metricName, k)) ==> mmNew.Counters[metricName][k] == final(cOriginal) && final(cOriginal.Value) == cOriginal.Value && final(cOriginal.Timestamp) == cOriginal.Timestamp
+//@   ensures  [others] forall n string, t string :: (n != metricName || t != tagsKeyOf(final(cOriginal.Source), final(cOriginal.Tags))) ==> hasC(mmNew, n, t) == old(hasC(mmNew, n, t)) && (hasC(mmNew, n, t) ==> mmNew.Counters[n][t] == old(mmNew.Counters[n][t]))
+//@   ensures  [outer] forall n string :: n != metricName ==> (n in mmNew.Counters) == old(n in mmNew.Counters) && mmNew.Counters[n] == old(mmNew.Counters[n])
+//@   ensures  [outer] old(metricName in mmNew.Counters) ==> mmNew.Counters[metricName] == old(mmNew.Counters[metricName])
+//@   ensures  [outer] !old(metricName in mmNew.Counters) && (metricName in mmNew.Counters) ==> fresh(mmNew.Counters[metricName])
+//@   modifies mmNew.Counters[*], mmNew.Counters[metricName][*], cOriginal.Tags[*]
+
+//@ pred setsOKm(mm *gostatsd.MetricMap) := forall n string, t string :: hasS(mm, n, t) ==> mm.Sets[n][t].Values != nil
+
+//@ func (*TagHandler).DispatchMetricMap$2
+//@   floats real
+//@   iter invariant th != nil && nodupTags(th.tags) && mmNew != nil && wfdGauges(mmNew.Gauges) && pfresh(mmNew.Gauges) && (forall n string :: n in mmNew.Gauges ==> pfresh(mmNew.Gauges[n]))
+//@   iter invariant forall n string :: (n in iter) == old(n in iter) && iter[n] == old(iter[n])
+//@   iter invariant forall n string, t string :: n in iter ==> (t in iter[n]) == old(t in iter[n]) && iter[n][t] == old(iter[n][t])
+//@   iter invariant forall n string, t string :: n in iter && t in iter[n] ==> tagsApart(iter[n][t].Tags, th.tags)
+//@   requires th != nil && nodupTags(th.tags) && mmNew != nil && wfdGauges(mmNew.Gauges) && tagsApart(gOriginal.Tags, th.tags)
+//@   ensures  wfdGauges(mmNew.Gauges) && mmNew.Gauges == old(mmNew.Gauges)
+//@   ensures  [dropped] old(metricDropped(th.filters, off(th.filters) + len(th.filters), metricName, gOriginal.Tags)) ==> forall n string, t string :: hasG(mmNew, n, t) == old(hasG(mmNew, n, t)) && (hasG(mmNew, n, t) ==> mmNew.Gauges[n][t] == old(mmNew.Gauges[n][t]))
+//@   ensures  [keyed] !old(metricDropped(th.filters, off(th.filters) + len(th.filters), metricName, gOriginal.Tags)) ==> hasG(mmNew, metricName, tagsKeyOf(final(gOriginal.Source), final(gOriginal.Tags)))
+//@   ensures  [combine] forall k string :: !old(metricDropped(th.filters, off(th.filters) + len(th.filters), metricName, gOriginal.Tags)) && k == tagsKeyOf(final(gOriginal.Source), final(gOriginal.Tags)) && old(hasG(mmNew, metricName, k)) ==> gOriginal.Timestamp > old(mmNew.Gauges[metricName][k].Timestamp) ==> mmNew.Gauges[metricName][k].Value == gOriginal.Value && mmNew.Gauges[metricName][k].Timestamp == gOriginal.Timestamp && mmNew.Gauges[metricName][k].Tags == old(mmNew.Gauges[metricName][k].Tags) && mmNew.Gauges[metricName][k].Source == old(mmNew.Gauges[metricName][k].Source)
+//@   ensures  [combine] forall k string :: !old(metricDropped(th.filters, off(th.filters) + len(th.filters), metricName, gOriginal.Tags)) && k == tagsKeyOf(final(gOriginal.Source), final(gOriginal.Tags)) && old(hasG(mmNew, metricName, k)) ==> gOriginal.Timestamp <= old(mmNew.Gauges[metricName][k].Timestamp) ==> mmNew.Gauges[metricName][k] == old(mmNew.Gauges[metricName][k])
+//@   ensures  [combine] forall k string :: !old(metricDropped(th.filters, off(th.filters) + len(th.filters), metricName, gOriginal.Tags)) && k == tagsKeyOf(final(gOriginal.Source), final(gOriginal.Tags)) && !old(hasG(mmNew, metricName, k)) ==> mmNew.Gauges[metricName][k] == final(gOriginal) && final(gOriginal.Timestamp) == gOriginal.Timestamp
+//@   ensures  [others] forall n string, t string :: (n != metricName || t != tagsKeyOf(final(gOriginal.Source), final(gOriginal.Tags))) ==> hasG(mmNew, n, t) == old(hasG(mmNew, n, t)) && (hasG(mmNew, n, t) ==> mmNew.Gauges[n][t] == old(mmNew.Gauges[n][t]))
+//@   ensures  [outer] forall n string :: n != metricName ==> (n in mmNew.Gauges) == old(n in mmNew.Gauges) && mmNew.Gauges[n] == old(mmNew.Gauges[n])
+//@   ensures  [outer] old(metricName in mmNew.Gauges) ==> mmNew.Gauges[metricName] == old(mmNew.Gauges[metricName])
+//@   ensures  [outer] !old(metricName in mmNew.Gauges) && (metricName in mmNew.Gauges) ==> fresh(mmNew.Gauges[metricName])
+//@   modifies mmNew.Gauges[*], mmNew.Gauges[metricName][*], gOriginal.Tags[*]
+
+//@ func (*TagHandler).DispatchMetricMap$3
+//@   floats real
+//@   iter invariant th != nil && nodupTags(th.tags) && mmNew != nil && wfdTimers(mmNew.Timers) && pfresh(mmNew.Timers) && (forall n string :: n in mmNew.Timers ==> pfresh(mmNew.Timers[n]))
+//@   iter invariant forall n string :: (n in iter) == old(n in iter) && iter[n] == old(iter[n])
+//@   iter invariant forall n string, t string :: n in iter ==> (t in iter[n]) == old(t in iter[n]) && iter[n][t] == old(iter[n][t])
+//@   iter invariant forall n string, t string :: n in iter && t in iter[n] ==> tagsApart(iter[n][t].Tags, th.tags)
+//@   requires th != nil && nodupTags(th.tags) && mmNew != nil && wfdTimers(mmNew.Timers) && tagsApart(tOriginal.Tags, th.tags)
+//@   ensures  wfdTimers(mmNew.Timers) && mmNew.Timers == old(mmNew.Timers)
+//@   ensures  [dropped] old(metricDropped(th.filters, off(th.filters) + len(th.filters), metricName, tOriginal.Tags)) ==> forall n string, t string :: hasT(mmNew, n, t) == old(hasT(mmNew, n, t)) && (hasT(mmNew, n, t) ==> mmNew.Timers[n][t] == old(mmNew.Timers[n][t]))
+//@   ensures  [keyed] !old(metricDropped(th.filters, off(th.filters) + len(th.filters), metricName, tOriginal.Tags)) ==> hasT(mmNew, metricName, tagsKeyOf(final(tOriginal.Source), final(tOriginal.Tags)))
+//@   ensures  [combine] forall k string :: !old(metricDropped(th.filters, off(th.filters) + len(th.filters), metricName, tOriginal.Tags)) && k == tagsKeyOf(final(tOriginal.Source), final(tOriginal.Tags)) && old(hasT(mmNew, metricName, k)) ==> mmNew.Timers[metricName][k].Timestamp == imax(old(mmNew.Timers[metricName][k].Timestamp), tOriginal.Timestamp) && mmNew.Timers[metricName][k].SampledCount == old(mmNew.Timers[metricName][k].SampledCount) + tOriginal.SampledCount && len(mmNew.Timers[metricName][k].Values) == old(len(mmNew.Timers[metricName][k].Values)) + len(tOriginal.Values) && mmNew.Timers[metricName][k].Tags == old(mmNew.Timers[metricName][k].Tags) && mmNew.Timers[metricName][k].Source == old(mmNew.Timers[metricName][k].Source)
+//@   ensures  [combine] forall k string :: !old(metricDropped(th.filters, off(th.filters) + len(th.filters), metricName, tOriginal.Tags)) && k == tagsKeyOf(final(tOriginal.Source), final(tOriginal.Tags)) && old(hasT(mmNew, metricName, k)) ==> forall i int :: 0 <= i && i < old(len(mmNew.Timers[metricName][k].Values)) ==> mmNew.Timers[metricName][k].Values[i] == old(mmNew.Timers[metricName][k].Values[i])
+//@   ensures  [combine] forall k string :: !old(metricDropped(th.filters, off(th.filters) + len(th.filters), metricName, tOriginal.Tags)) && k == tagsKeyOf(final(tOriginal.Source), final(tOriginal.Tags)) && !old(hasT(mmNew, metricName, k)) ==> mmNew.Timers[metricName][k] == final(tOriginal) && final(tOriginal.Timestamp) == tOriginal.Timestamp
+//@   ensures  [others] forall n string, t string :: (n != metricName || t != tagsKeyOf(final(tOriginal.Source), final(tOriginal.Tags))) ==> hasT(mmNew, n, t) == old(hasT(mmNew, n, t)) && (hasT(mmNew, n, t) ==> mmNew.Timers[n][t] == old(mmNew.Timers[n][t]))
+//@   ensures  [outer] forall n string :: n != metricName ==> (n in mmNew.Timers) == old(n in mmNew.Timers) && mmNew.Timers[n] == old(mmNew.Timers[n])
+//@   ensures  [outer] old(metricName in mmNew.Timers) ==> mmNew.Timers[metricName] == old(mmNew.Timers[metricName])
+//@   ensures  [outer] !old(metricName in mmNew.Timers) && (metricName in mmNew.Timers) ==> fresh(mmNew.Timers[metricName])
+//@   modifies mmNew.Timers[*], mmNew.Timers[metricName][*], tOriginal.Tags[*], allElems(float64)
+
+//@ func (*TagHandler).DispatchMetricMap$4
+//@   iter invariant th != nil && nodupTags(th.tags) && mmNew != nil && wfdSets(mmNew.Sets) && pfresh(mmNew.Sets) && (forall n string :: n in mmNew.Sets ==> pfresh(mmNew.Sets[n])) && setsOKm(mmNew)
+//@   iter invariant forall n string :: (n in iter) == old(n in iter) && iter[n] == old(iter[n])
+//@   iter invariant forall n string, t string :: n in iter ==> (t in iter[n]) == old(t in iter[n]) && iter[n][t] == old(iter[n][t])
+//@   iter invariant forall n string, t string :: n in iter && t in iter[n] ==> tagsApart(iter[n][t].Tags, th.tags)
+//@   requires th != nil && nodupTags(th.tags) && mmNew != nil && wfdSets(mmNew.Sets) && tagsApart(sOriginal.Tags, th.tags) && setsOKm(mmNew) && sOriginal.Values != nil
+//@   ensures  wfdSets(mmNew.Sets) && mmNew.Sets == old(mmNew.Sets) && setsOKm(mmNew)
+//@   ensures  [dropped] old(metricDropped(th.filters, off(th.filters) + len(th.filters), metricName, sOriginal.Tags)) ==> forall n string, t string :: hasS(mmNew, n, t) == old(hasS(mmNew, n, t)) && (hasS(mmNew, n, t) ==> mmNew.Sets[n][t] == old(mmNew.Sets[n][t]))
+//@   ensures  [keyed] !old(metricDropped(th.filters, off(th.filters) + len(th.filters), metricName, sOriginal.Tags)) ==> hasS(mmNew, metricName, tagsKeyOf(final(sOriginal.Source), final(sOriginal.Tags)))
+//@   ensures  [combine] forall k string :: !old(metricDropped(th.filters, off(th.filters) + len(th.filters), metricName, sOriginal.Tags)) && k == tagsKeyOf(final(sOriginal.Source), final(sOriginal.Tags)) && old(hasS(mmNew, metricName, k)) ==> mmNew.Sets[metricName][k].Timestamp == imax(old(mmNew.Sets[metricName][k].Timestamp), sOriginal.Timestamp) && mmNew.Sets[metricName][k].Values == old(mmNew.Sets[metricName][k].Values) && mmNew.Sets[metricName][k].Tags == old(mmNew.Sets[metricName][k].Tags) && mmNew.Sets[metricName][k].Source == old(mmNew.Sets[metricName][k].Source)
+//@   ensures  [combine] forall k string :: !old(metricDropped(th.filters, off(th.filters) + len(th.filters), metricName, sOriginal.Tags)) && k == tagsKeyOf(final(sOriginal.Source), final(sOriginal.Tags)) && old(hasS(mmNew, metricName, k)) ==> forall x string :: (x in mmNew.Sets[metricName][k].Values) == (old(x in mmNew.Sets[metricName][k].Values) || old(x in sOriginal.Values))
+//@   ensures  [combine] forall k string :: !old(metricDropped(th.filters, off(th.filters) + len(th.filters), metricName, sOriginal.Tags)) && k == tagsKeyOf(final(sOriginal.Source), final(sOriginal.Tags)) && !old(hasS(mmNew, metricName, k)) ==> mmNew.Sets[metricName][k] == final(sOriginal) && final(sOriginal.Timestamp) == sOriginal.Timestamp
+//@   ensures  [others] forall n string, t string :: (n != metricName || t != tagsKeyOf(final(sOriginal.Source), final(sOriginal.Tags))) ==> hasS(mmNew, n, t) == old(hasS(mmNew, n, t)) && (hasS(mmNew, n, t) ==> mmNew.Sets[n][t] == old(mmNew.Sets[n][t]))
+//@   ensures  [outer] forall n string :: n != metricName ==> (n in mmNew.Sets) == old(n in mmNew.Sets) && mmNew.Sets[n] == old(mmNew.Sets[n])
+//@   ensures  [outer] old(metricName in mmNew.Sets) ==> mmNew.Sets[metricName] == old(mmNew.Sets[metricName])
+//@   ensures  [outer] !old(metricName in mmNew.Sets) && (metricName in mmNew.Sets) ==> fresh(mmNew.Sets[metricName])
+//@   modifies mmNew.Sets[*], mmNew.Sets[metricName][*], sOriginal.Tags[*], allMapsLike(gostatsd.Set.Values)
+//@   loop 1 invariant forall x string :: (x in sNew.Values) == (pre(x in sNew.Values) || (visited(1)[x] && old(x in sOriginal.Values)))
+//@   loop 1 invariant sOriginal.Values == sNew.Values || (forall x string :: (x in sOriginal.Values) == old(x in sOriginal.Values))
+
+//@ pred allTagsApart(mm *gostatsd.MetricMap, static gostatsd.Tags) := (forall n string, t string :: hasC(mm, n, t) ==> tagsApart(mm.Counters[n][t].Tags, static)) && (forall n string, t string :: hasG(mm, n, t) ==> tagsApart(mm.Gauges[n][t].Tags, static)) && (forall n string, t string :: hasT(mm, n, t) ==> tagsApart(mm.Timers[n][t].Tags, static)) && (forall n string, t string :: hasS(mm, n, t) ==> tagsApart(mm.Sets[n][t].Tags, static))
+// The re-tagged map (and nothing else) is handed to the next stage.
+//@ func (*TagHandler).DispatchMetricMap
+//@   floats real
+//@   requires th != nil && th.handler != nil && nodupTags(th.tags) && mm != nil && setsOKm(mm) && allTagsApart(mm, th.tags)
+//@   requires wfdCounters(mm.Counters) && wfdGauges(mm.Gauges) && wfdTimers(mm.Timers) && wfdSets(mm.Sets)
+//@   callsite DispatchMetricMap requires mm == mmNew && fresh(mm)
+//@   modifies everything
+
+// NewTagHandler de-duplicates the static tags once (uniqueFilterAndAddTags relies on it).
+//@ func NewTagHandler
+//@   requires handler != nil
+//@   ensures  result != nil && nodupTags(result.tags) && result.filters == filters && result.handler == handler
+//@   ensures  forall k int :: off(tags) <= k && k < off(tags) + len(tags) ==> inTags(old(at(tags, k)), result.tags)
+//@   modifies tags[*]
+
+// DispatchEvent adds the static tags (without duplicates) and forwards the same event.
+//@ func (*TagHandler).DispatchEvent
+//@   requires th != nil && th.handler != nil && e != nil && nodupTags(th.tags) && tagsApart(e.Tags, th.tags)
+//@   callsite DispatchEvent requires e == arg1 && nodupTags(e.Tags) && (forall j int :: off(th.tags) <= j && j < off(th.tags) + len(th.tags) ==> inTags(at(th.tags, j), e.Tags))
+//@   modifies everything
